@@ -371,9 +371,12 @@ class Stream(object):
         Returns:
             str: ``chunked``, ``length``, ``close``.
         '''
+        # Transfer coding names are case-insensitive and chunked is the
+        # last coding applied. rfc7230 section 3.3.1, section 4.
         chunked_match = re.match(
-            r'chunked($|;)',
-            response.fields.get('Transfer-Encoding', '')
+            r'(.*,)?[ \t]*chunked[ \t]*($|;)',
+            response.fields.get('Transfer-Encoding', ''),
+            re.IGNORECASE
         )
 
         if chunked_match:
